@@ -1,5 +1,6 @@
 import Proofs.Cyclepoints
 import Proofs.Detect
+import Proofs.Pipeline
 /-!
 # C01 — the cycle table is a complete, ordered, gap-free segmentation
 
@@ -52,6 +53,21 @@ theorem C01_labelling_total (rows : List CycRow) (th : CycThresh) (hv : th.valid
     (∃ l, detectCycles rows th = .ok l ∧ l.length = rows.length) ∧ (∃ l, detectAmp fracs thr minN = .ok l) :=
   ⟨⟨_, detectCycles_eq_spec rows th hv (Or.inr hk), cyclesSpec_length rows th⟩,
    ⟨_, detectAmp_eq_spec fracs thr minN h0 h1 (Or.inr hm)⟩⟩
+
+/-- three full oscillations inside the boundary (three kept peaks and three kept troughs) guarantee a table. -/
+theorem C01_three_oscillations (sig : List Rat) (pad : Nat) (b : List Bool) (bd : Int)
+    (hlen : b.length = sig.length + 2 * pad) (hr : risingX b ≠ []) (hd : decayingX b ≠ []) (hbd : 0 ≤ bd)
+    (hP : 3 ≤ (boundarySpec (peaksSpec (List.replicate pad (0 : Rat) ++ sig ++ List.replicate pad 0) b) pad sig.length bd).length)
+    (hT : 3 ≤ (boundarySpec (troughsSpec (List.replicate pad (0 : Rat) ++ sig ++ List.replicate pad 0) b) pad sig.length bd).length) :
+    ∃ rows, computeCyclepoints sig pad b bd = .ok rows ∧ 1 ≤ rows.length := by
+  obtain ⟨P, T, hs, h2⟩ := three_oscillations sig pad b bd hlen hP hT
+  obtain ⟨rows, hrows, hl⟩ := computeCyclepoints_total sig pad b bd P T hlen hr hd hbd hs h2
+  exact ⟨rows, hrows, by omega⟩
+
+/-- the whole (modelled) analysis returns well-formed sample columns, both centrings. -/
+theorem C01_pipeline (c : Centre) (x : List Rat) (pad : Nat) (b : List Bool) (amp : List Rat) (bd : Int) (th : CycThresh)
+    (o : PipeOut) (hlen : b.length = x.length + 2 * pad) (h : pipelineCycles c x pad b amp bd th = .ok o) :
+    wellFormed o.samples x.length bd := pipeline_wellFormed c x pad b amp bd th o hlen h
 
 /-! non-vacuity -/
 example : computeCyclepoints [0, 1, 3, 3, 1, -1, -2, -2, 0, 1, 2, 1, -1, -1, 0, 2, 1, -3, -1, 0, 1, 2] 0
